@@ -88,6 +88,7 @@ type aggregate struct {
 	viols               []foundWithJob
 	deaths              []jobOutcome
 	logFPs              map[int][]uint64
+	startupViols        int
 }
 
 type foundWithJob struct {
@@ -101,6 +102,10 @@ func newAggregate() *aggregate {
 }
 
 func (a *aggregate) add(o jobOutcome) {
+	if o.group != nil {
+		a.addStartup(o)
+		return
+	}
 	if o.death != nil {
 		a.deaths = append(a.deaths, o)
 		return
@@ -307,6 +312,13 @@ func executePlan(prop, tier string, seed uint64, plan *Plan, nproc int, t0 time.
 			continue
 		}
 		v := vs[0]
+		if v.job.Scen == "c19_startup" {
+			path := writeReplay(prop, v.fv, v.job, v.cfg, nil, treeHash, false)
+			fmt.Printf("VIOLATION property=%s replay=%s\n  signature: %s (%d files)\n  %s\n", prop, path, sig, len(vs), indent(v.fv.V.Detail, "  "))
+			nviol += len(vs)
+			exit = 1
+			continue
+		}
 		race := v.job.Parallel > 1 && bins[true] != ""
 		bin := bins[false]
 		if bin == "" || race {
@@ -401,4 +413,47 @@ func (ks knownSet) match(prop, sig string) *knownEntry {
 		}
 	}
 	return nil
+}
+
+// addStartup judges the start-up outcome of a generated configuration file (C19).
+func (a *aggregate) addStartup(o jobOutcome) {
+	g := o.group
+	a.probes["config_"+g.Expect+"_"+g.Kind]++
+	mk := func(culprit, detail string) {
+		fv := FoundViolation{Seed: o.job.Seed, V: Violation{Prop: "C19", Rule: "startup", Culprit: culprit, Detail: detail + "\n--- config.toml ---\n" + g.Cfg.Text},
+			Desc: map[string]any{"config": g.Cfg.Text, "expect": g.Expect, "kind": g.Kind}}
+		j := *o.job
+		j.Scen = "c19_startup"
+		j.Params = map[string]int{"expect_reject": map[bool]int{true: 1, false: 0}[g.Expect == "reject"]}
+		a.viols = append(a.viols, foundWithJob{fv, &j, g.Cfg})
+		a.startupViols++
+	}
+	if o.started {
+		a.probes["config_accepted"]++
+		if g.Expect == "reject" {
+			mk("accepted-invalid-configuration:"+g.Kind, "a configuration that must be rejected at start-up ("+g.Kind+") was accepted")
+		}
+		return
+	}
+	se := o.startup
+	diagnosed := se.exit == 1 && strings.Contains(se.stderr, "failed to parse") && strings.Contains(se.stderr, "config.toml")
+	if !diagnosed {
+		mk("startup-crash:"+g.Kind, fmt.Sprintf("start-up under this configuration neither succeeded nor ended with exit status 1 and a diagnostic naming the file (exit %d): %s", se.exit, lastLines(se.stderr, 12)))
+		return
+	}
+	a.probes["config_rejected"]++
+	a.runs++
+	a.fps[hashString(g.Cfg.Text)] = true
+	if g.Expect == "accept" {
+		mk("rejected-valid-configuration:"+g.Kind, "a valid in-range configuration was rejected: "+lastLines(se.stderr, 3))
+	}
+}
+
+func hashString(s string) uint64 {
+	h := uint64(14695981039346656037)
+	for i := 0; i < len(s); i++ {
+		h ^= uint64(s[i])
+		h *= 1099511628211
+	}
+	return h
 }
